@@ -136,7 +136,7 @@ def c03(ctx):
     # one marathon game (1300 plies on one board, castling rights held beyond ply 600 and lost afterwards):
     # the successor must be the rules' successor however long the history behind it
     import props_engine
-    mb, mev, mh, msk = props_engine.run_traces(ctx, "clock", 1 if quick else 3, 1, 1300, label="marathon")
+    mb, mev, mh, msk = props_engine.run_traces(ctx, "marathon", 1, 1, 0, label="marathon")
     props_engine.absorb_bad(ctx, mb)
     ctx.evaluations += mev
     ctx.sample({"binding": "B1", "move_kinds_applied": summ["movekinds"]})
